@@ -57,6 +57,8 @@ def match_known(known, prop, key, witness_class=None):
             continue
         if f.get("witness_prefix") is not None and witness_class is not None and not str(witness_class).startswith(f["witness_prefix"]):
             continue
+        if f.get("witness_contains") is not None and witness_class is not None and f["witness_contains"] not in str(witness_class):
+            continue
         return f
     return None
 
